@@ -1615,6 +1615,12 @@ def m_contains_cs(I, st, c, args, body, t):
 def m_concat_cs(I, st, c, args, body, t):
     from .domain import bit_or
     v = deref(I, st, args[0])
+    if isinstance(v, VecV) and v.elems is None and v.summary is not None:
+        p = _cs_of(I, st, v.summary)
+        if p is not None:
+            from .domain import TBIT, bit_is_const
+            # any number (possibly zero) of such strings: a letter that may occur in one may occur in the whole
+            return st, charset({ch: (b if b == 0 else TBIT) for ch, b in p.items()})
     if isinstance(v, VecV) and v.elems is not None:
         ps = [_cs_of(I, st, e) for e in v.elems]
         if ps and all(p is not None for p in ps):
